@@ -448,12 +448,25 @@ func rewriteTop(s string) string {
 		if q == "exists" {
 			fn = "gcExists"
 		}
-		sp := strings.LastIndex(binder, " ")
-		names, typ := binder[:sp], strings.TrimSpace(binder[sp+1:])
-		vars := strings.Split(names, ",")
+		// binder: Go parameter-list syntax: "x T", "x, y T", "i int, y uint64"
+		pieces := splitTop(binder, ',')
+		type bv struct{ name, typ string }
+		var bvs []bv
+		cur := ""
+		for k := len(pieces) - 1; k >= 0; k-- {
+			pc := strings.TrimSpace(pieces[k])
+			if sp := strings.Index(pc, " "); sp >= 0 {
+				cur = strings.TrimSpace(pc[sp+1:])
+				pc = pc[:sp]
+			}
+			if cur == "" {
+				panic("quantifier binder without type in " + s)
+			}
+			bvs = append([]bv{{pc, cur}}, bvs...)
+		}
 		out := body
-		for k := len(vars) - 1; k >= 0; k-- {
-			out = fmt.Sprintf("%s(func(%s %s) bool { return %s })", fn, strings.TrimSpace(vars[k]), typ, out)
+		for k := len(bvs) - 1; k >= 0; k-- {
+			out = fmt.Sprintf("%s(func(%s %s) bool { return %s })", fn, bvs[k].name, bvs[k].typ, out)
 		}
 		return out
 	}
@@ -517,7 +530,9 @@ func rewriteInner(s string) string {
 			}
 			inner := s[i+1 : j]
 			b.WriteByte(c)
-			if c == '(' || c == '[' {
+			if ti := strings.TrimSpace(inner); c == '(' && (strings.HasPrefix(ti, "forall ") || strings.HasPrefix(ti, "exists ")) {
+				b.WriteString(rewriteTop(inner))
+			} else if c == '(' || c == '[' {
 				parts := splitTop(inner, ',')
 				for k, p := range parts {
 					if k > 0 {
@@ -582,4 +597,6 @@ func gcIte[T any](c bool, a, b T) T { if c { return a }; return b }
 func gcImplies(a, b bool) bool { return !a || b }
 func gcForall[T any](f func(T) bool) bool { var z T; return f(z) }
 func gcExists[T any](f func(T) bool) bool { var z T; return f(z) }
+func gcAllocated[T any](x T) bool { return true }
+func gcSameArray[T any](a, b []T) bool { return len(a) > 0 && len(b) > 0 && &a[0] == &b[0] }
 `
